@@ -94,9 +94,22 @@ class DispatchStation(VehicleState):
         elif not station.membership.grant_access_to_membership(vehicle.membership):
             msg = f"vehicle {vehicle.id} and station {station.id} don't share a membership"
             return SimulationStateError(msg), None
+        elif not self._vehicle_can_use_charger(vehicle, station, env):
+            # refused here, not on arrival: ChargeQueueing does not re-check the plug type, so a
+            # vehicle sent to a plug it cannot use would wait in the queue forever
+            msg = f"vehicle {vehicle.id} of type {vehicle.mechatronics_id} can't use charger {self.charger_id}"
+            return SimulationStateError(msg), None
         else:
             result = VehicleState.apply_new_vehicle_state(sim, self.vehicle_id, self)
             return result
+
+    def _vehicle_can_use_charger(self, vehicle, station, env: Environment) -> bool:
+        mechatronics = env.mechatronics.get(vehicle.mechatronics_id)
+        _, charger = station.get_charger_instance(self.charger_id)
+        if mechatronics is None or charger is None:
+            # unknown powertrain or plug type: left to the checks made on arrival
+            return True
+        return mechatronics.valid_charger(charger)
 
     def exit(
         self, next_state: VehicleState, sim: SimulationState, env: Environment
